@@ -724,6 +724,37 @@ class Stack:
             reb.append(self.backend_chain(d - 1) + ".get_configuration()")
         L.append("    // a new field from the configurations the old one reports (and a copy of its innermost storage)")
         L.append("    static field_t rebuild(const field_t & f) { return field_t(covfie::make_parameter_pack(%s)); }" % ", ".join(reb))
+        # further ways of rebuilding from what the field reports: each layer's own constructors
+        forms = []
+        FORM_A = ("affine", "backup", "clamp", "hilbert", "morton_t", "morton_f", "strided")      # (const configuration_t &, inner owning data &&)
+        FORM_B = ("backup", "cast", "deref", "linear", "shuffle")                                 # (configuration_t, inner constructor arguments by value...)
+        for k in range(d):
+            kind = self.layers[k]["kind"]
+            outer = [self.backend_chain(i) + ".get_configuration()" for i in range(k)]
+            me, cfg = self.backend_chain(k), self.backend_chain(k) + ".get_configuration()"
+            pack = lambda last: "return field_t(covfie::make_parameter_pack(%s));" % ", ".join(outer + [last])
+            if not (k == d - 1 and self.has_array()):
+                forms.append(("layer %d copied whole" % k, pack("typename B%d::owning_data_t(%s)" % (k, me))))
+            if k + 1 < d:
+                inner = self.backend_chain(k + 1)
+                if kind in FORM_A:
+                    forms.append(("layer %d from (configuration, inner layer moved in)" % k,
+                                  pack("typename B%d::owning_data_t(%s, typename B%d::owning_data_t(%s))" % (k, cfg, k + 1, inner))))
+                if kind in FORM_B:
+                    forms.append(("layer %d from (configuration, inner layer as an lvalue)" % k,
+                                  pack("typename B%d::owning_data_t(%s, %s)" % (k, cfg, inner))))
+            if kind in ("strided", "morton_t", "morton_f"):
+                both = ", ".join(outer + ["kept"])
+                forms.append(("layer %d kept in a named variable, used for two rebuilds (the second returned)" % k,
+                              "typename B%d::owning_data_t kept(%s); field_t first(covfie::make_parameter_pack(%s)); (void)first; return field_t(covfie::make_parameter_pack(%s));" % (k, me, both, both)))
+                forms.append(("layer %d kept in a named const variable" % k,
+                              "const typename B%d::owning_data_t kept(%s); return field_t(covfie::make_parameter_pack(%s));" % (k, me, both)))
+        L.append("    static constexpr int rebuild_forms = %d;" % len(forms))
+        L.append("    static const char * rebuild_form_name(int i) { static const char * n[] = {%s}; return n[i]; }" % ", ".join(cstr(n) for n, _ in forms + [("", "")]))
+        L.append("    template <int I> static field_t rebuild_form(const field_t & f) {")
+        for i, (_, body) in enumerate(forms):
+            L.append("        %sif constexpr (I == %d) { %s }" % ("else " if i else "", i, body))
+        L.append("    }")
         if self.has_array():
             L.append("    using array_t = B%d;" % (d - 1))
             L.append("    static const typename array_t::owning_data_t & storage(const field_t & f) { return %s; }" % self.backend_chain(d - 1))
